@@ -254,7 +254,12 @@ def check_meiosis(prog, rep, f, prop="C01"):
         U("R2-tiling", "expected exactly phase and cursor initialisations before the segment loop, found %s" % cand)
         return False
     # identify by use: cursor appears as slice lower bound; phase as first index of geno
-    ib = inner.body
+    ib = list(inner.body)
+    # early-exit guards `if <cond>: continue` in front of the segment step: every path that skips the step also skips the toggle
+    while ib and isinstance(ib[0], ast.If) and len(ib[0].body) == 1 and isinstance(ib[0].body[0], ast.Continue) and not ib[0].orelse:
+        g = ib.pop(0)
+        V("C02-R3-toggle", "a crossover index is skipped by `if %s: continue` before the phase toggle: the chromosome copy is not switched at that crossover "
+          "(e.g. a crossover drawn at marker 0 no longer randomises the starting copy)" % dump(g.test), g, "toggle on every crossover index", "continue")
     stores = [st for st in ib if isinstance(st, ast.Assign) and isinstance(st.targets[0], ast.Subscript)]
     if len(stores) != 1 or len(ib) != 3:
         U("R2-tiling", "segment loop body is not (copy, advance cursor, toggle phase)")
